@@ -26,6 +26,8 @@ RULE = (
     "positions of one shuffled history on one simulator. evaluations = queries issued. distinct_nontrivial = distinct (problem, state, "
     "instance) whose action has conditional/forall effects or touches an invariant/bounded fluent (apply and the applicability path both "
     "have to evaluate effects), plus distinct repeat queries issued after a query that internally hit an undefined fluent or a conflict."
+    " Thorough tier, shard 0: the same shuffled query histories on the repository's example problems inside the simulator's kind "
+    "(52 problems on the pinned tree; counter examples_explored)."
 )
 ASSUMPTIONS = ["a state is observed through get_value on every ground fluent; hidden state not reachable through get_value is not compared"]
 BOUNDS = {"quick": dict(n=500, depth=3, max_states=10, max_inst=30), "thorough": dict(n=24000, depth=4, max_states=24, max_inst=50)}
@@ -43,9 +45,15 @@ def run_shard(spec, res):
             run_case(key, spec["tier"], res)
         except Unsupported:
             res.count("skipped_unsupported_by_oracle")
+    if spec["tier"] == "thorough" and spec["shard"] == 0:
+        res.count("tier:thorough")
+        run_examples(spec["tier"], res)
 
 
 def replay(witness, res):
+    if witness.get("example"):
+        run_examples(witness.get("tier", "thorough"), res, only=witness["example"])
+        return
     run_case(witness["case_key"], witness.get("tier", "quick"), res)
 
 
@@ -65,11 +73,40 @@ def run_case(key, tier, res):
     if not UPSequentialSimulator.supports(pb.kind):
         res.count("rejected_unsupported_kind")
         return
-    rng = rng_for(key, "history")
-    pid = h(rec)
+    judge_problem(pb, {"case_key": key, "tier": tier, "recipe": rec}, b, rng_for(key, "history"), h(rec), res)
+
+
+def run_examples(tier, res, only=None):
+    """The repository's example problems (thorough tier): same query histories on realistic models."""
+    import random
+
+    from unified_planning.engines.sequential_simulator import UPSequentialSimulator
+    from unified_planning.model import Problem
+    from unified_planning.test.examples import get_example_problems
+
+    b = dict(BOUNDS[tier], max_states=8, depth=2, max_inst=40)
+    for name, ex in sorted(get_example_problems().items()):
+        if only and name != only:
+            continue
+        pb = ex.problem
+        if type(pb) is not Problem or pb.kind.has_simulated_effects() or not UPSequentialSimulator.supports(pb.kind):
+            continue
+        try:
+            if len(seqsem.all_instances(pb)) > 400 or len(seqsem.ground_fluents(pb)) > 400:
+                res.count("examples_skipped_too_large")
+                continue
+            res.count("examples_explored")
+            judge_problem(pb, {"example": name, "tier": tier}, b, random.Random(name), "ex:" + name, res)
+        except Unsupported:
+            res.count("examples_skipped_unsupported_by_oracle")
+
+
+def judge_problem(pb, wbase, b, rng, pid, res):
+    from unified_planning.engines.sequential_simulator import UPSequentialSimulator
+    from unified_planning.exceptions import UPProblemDefinitionError, UPUsageError, UPStateMissingFluentError
 
     def viol(mech, summary, **w):
-        res.violation(mech, summary, {"case_key": key, "tier": tier, "recipe": rec, **w})
+        res.violation(mech, summary, {**wbase, **w})
 
     try:
         sim = UPSequentialSimulator(pb)
@@ -260,7 +297,7 @@ def run_case(key, tier, res):
             return
         if not sampled and appl:
             sampled = True
-            res.sample({"problem": rec, "state": seqsem.show_state(snaps[si]), "applicable": appl, "is_goal": g, "history_prefix": hist[:8]})
+            res.sample({"problem": wbase.get("recipe", wbase.get("example")), "state": seqsem.show_state(snaps[si]), "applicable": appl, "is_goal": g, "history_prefix": hist[:8]})
 
 
 def thresholds(m):
@@ -274,4 +311,6 @@ def thresholds(m):
         out.append("fewer than 50 partially consumed get_applicable_actions iterators")
     if c.get("queries_hitting_conflict", 0) < 2:
         out.append("no query hit a conflicting-assignment case")
+    if c.get("tier:thorough") and c.get("examples_explored", 0) < 20:
+        out.append(f"fewer than 20 example problems explored ({c.get('examples_explored', 0)})")
     return out
